@@ -55,21 +55,28 @@ theorem runT_snoc (ops : List PRecv.Op) (op : PRecv.Op) (g g1 g2 : G) (hr : runT
     (hs : stepT g1 op = .ok g2) : runT g (ops ++ [op]) = .ok g2 := by
   rw [runT_append ops [op] g g1 hr, runT, hs, bindR_ok, runT]
 
-/-- The sender and the receiver of a system state are reachable by plain sender / receiver runs. -/
-def Reach (w W b a m : Nat) (s : Sys) : Prop :=
+/-- No `resync` step in a schedule. -/
+def NoResync (ops : List SOp) : Prop := ∀ op ∈ ops, ∀ k, op ≠ .resync k
+
+/-- The sender and the receiver of a system state are reachable by plain sender / receiver runs; the
+receiver run contains a `resynchronize` call only if `nr` fails (`nr`: the system schedule so far had no
+`resync` step). -/
+def Reach (w W b a m : Nat) (nr : Prop) (s : Sys) : Prop :=
   (∃ sops, runH (PSend.init w b a) {} sops = .ok (s.snd, s.hist)) ∧
-  (∃ rops, (∀ op ∈ rops, ∀ id, op ≠ .resync id) ∧ runT (initG W b m) rops = .ok s.rcv)
+  (∃ rops, (nr → ∀ op ∈ rops, ∀ id, op ≠ .resync id) ∧ runT (initG W b m) rops = .ok s.rcv)
 
-theorem reach_init (w W b a m : Nat) : Reach w W b a m (initS w W b a m) :=
-  ⟨⟨[], rfl⟩, ⟨[], fun _ h => (by cases h), rfl⟩⟩
+theorem reach_init (w W b a m : Nat) : Reach w W b a m True (initS w W b a m) :=
+  ⟨⟨[], rfl⟩, ⟨[], fun _ _ h => (by cases h), rfl⟩⟩
 
-theorem reach_step {w W b a m : Nat} {s s' : Sys} (h : Reach w W b a m s) (op : SOp)
-    (hs : stepS s op = .ok s') : Reach w W b a m s' := by
+theorem reach_step {w W b a m : Nat} {nr : Prop} {s s' : Sys} (h : Reach w W b a m nr s) (op : SOp)
+    (hs : stepS s op = .ok s') : Reach w W b a m (nr ∧ ∀ k, op ≠ .resync k) s' := by
   obtain ⟨⟨sops, hso⟩, ⟨rops, hnr, hro⟩⟩ := h
-  have hmem : ∀ (x : PRecv.Op), (∀ id, x ≠ .resync id) → ∀ op ∈ rops ++ [x], ∀ id, op ≠ .resync id := by
-    intro x hx op hm
+  have hnr' : (nr ∧ ∀ k, op ≠ .resync k) → ∀ op ∈ rops, ∀ id, op ≠ .resync id := fun hn => hnr hn.1
+  have hmem : ∀ (x : PRecv.Op), (∀ id, x ≠ .resync id) → (nr ∧ ∀ k, op ≠ .resync k) →
+      ∀ op ∈ rops ++ [x], ∀ id, op ≠ .resync id := by
+    intro x hx hn op hm
     rcases List.mem_append.mp hm with hm | hm
-    · exact hnr op hm
+    · exact hnr hn.1 op hm
     · rw [List.mem_singleton.mp hm]; exact hx
   cases op with
   | enq d c m' f =>
@@ -80,8 +87,8 @@ theorem reach_step {w W b a m : Nat} {s s' : Sys} (h : Reach w W b a m s) (op : 
       | ok r =>
         rw [hr, bindR_ok] at hs
         cases hs
-        exact ⟨⟨_, runH_snoc sops _ _ _ _ _ r hso hr⟩, ⟨rops, hnr, hro⟩⟩
-    · cases hs; exact ⟨⟨sops, hso⟩, ⟨rops, hnr, hro⟩⟩
+        exact ⟨⟨_, runH_snoc sops _ _ _ _ _ r hso hr⟩, ⟨rops, hnr', hro⟩⟩
+    · cases hs; exact ⟨⟨sops, hso⟩, ⟨rops, hnr', hro⟩⟩
   | emit f =>
     simp only [stepS] at hs
     cases hr : stepH s.snd s.hist (.emit f) with
@@ -89,11 +96,11 @@ theorem reach_step {w W b a m : Nat} {s s' : Sys} (h : Reach w W b a m s) (op : 
     | ok r =>
       rw [hr, bindR_ok] at hs
       cases hs
-      exact ⟨⟨_, runH_snoc sops _ _ _ _ _ r hso hr⟩, ⟨rops, hnr, hro⟩⟩
+      exact ⟨⟨_, runH_snoc sops _ _ _ _ _ r hso hr⟩, ⟨rops, hnr', hro⟩⟩
   | deliver k =>
     simp only [stepS] at hs
     split at hs
-    · cases hs; exact ⟨⟨sops, hso⟩, ⟨rops, hnr, hro⟩⟩
+    · cases hs; exact ⟨⟨sops, hso⟩, ⟨rops, hnr', hro⟩⟩
     · rename_i i d hk
       split at hs
       · cases hg : stepT s.rcv (.dg d) with
@@ -103,7 +110,7 @@ theorem reach_step {w W b a m : Nat} {s s' : Sys} (h : Reach w W b a m s) (op : 
           cases hs
           exact ⟨⟨sops, hso⟩, ⟨rops ++ [.dg d], hmem _ (fun _ hc => (by cases hc)),
             runT_snoc rops _ _ _ _ hro hg⟩⟩
-      · cases hs; exact ⟨⟨sops, hso⟩, ⟨rops, hnr, hro⟩⟩
+      · cases hs; exact ⟨⟨sops, hso⟩, ⟨rops, hnr', hro⟩⟩
   | recv =>
     simp only [stepS] at hs
     cases hg : stepT s.rcv .recv with
@@ -116,7 +123,7 @@ theorem reach_step {w W b a m : Nat} {s s' : Sys} (h : Reach w W b a m s) (op : 
   | ack k =>
     simp only [stepS] at hs
     split at hs
-    · cases hs; exact ⟨⟨sops, hso⟩, ⟨rops, hnr, hro⟩⟩
+    · cases hs; exact ⟨⟨sops, hso⟩, ⟨rops, hnr', hro⟩⟩
     · rename_i a' rb hk
       split at hs
       · cases hr : stepH s.snd s.hist (.ack rb) with
@@ -124,21 +131,45 @@ theorem reach_step {w W b a m : Nat} {s s' : Sys} (h : Reach w W b a m s) (op : 
         | ok r =>
           rw [hr, bindR_ok] at hs
           cases hs
-          exact ⟨⟨_, runH_snoc sops _ _ _ _ _ r hso hr⟩, ⟨rops, hnr, hro⟩⟩
-      · cases hs; exact ⟨⟨sops, hso⟩, ⟨rops, hnr, hro⟩⟩
+          exact ⟨⟨_, runH_snoc sops _ _ _ _ _ r hso hr⟩, ⟨rops, hnr', hro⟩⟩
+      · cases hs; exact ⟨⟨sops, hso⟩, ⟨rops, hnr', hro⟩⟩
+  | sync =>
+    simp only [stepS] at hs
+    split at hs
+    · cases hs; exact ⟨⟨sops, hso⟩, ⟨rops, hnr', hro⟩⟩
+    · cases hs; exact ⟨⟨sops, hso⟩, ⟨rops, hnr', hro⟩⟩
+  | resync k =>
+    simp only [stepS] at hs
+    split at hs
+    · cases hs; exact ⟨⟨sops, hso⟩, ⟨rops, hnr', hro⟩⟩
+    · rename_i n id hk
+      split at hs
+      · cases hg : stepT s.rcv (.resync id) with
+        | error t => rw [hg] at hs; cases hs
+        | ok g =>
+          rw [hg, bindR_ok] at hs
+          cases hs
+          exact ⟨⟨sops, hso⟩, ⟨rops ++ [.resync id], fun hn => absurd rfl (hn.2 k),
+            runT_snoc rops _ _ _ _ hro hg⟩⟩
+      · cases hs; exact ⟨⟨sops, hso⟩, ⟨rops, hnr', hro⟩⟩
 
-theorem reach_run {w W b a m : Nat} (ops : List SOp) : ∀ {s s' : Sys}, Reach w W b a m s →
-    runS s ops = .ok s' → Reach w W b a m s' := by
+theorem reach_run {w W b a m : Nat} (ops : List SOp) : ∀ {nr : Prop} {s s' : Sys}, Reach w W b a m nr s →
+    runS s ops = .ok s' → Reach w W b a m (nr ∧ NoResync ops) s' := by
   induction ops with
-  | nil => intro s s' h hr; cases hr; exact h
+  | nil =>
+    intro nr s s' h hr; cases hr
+    exact ⟨h.1, by obtain ⟨rops, h1, h2⟩ := h.2; exact ⟨rops, fun hn => h1 hn.1, h2⟩⟩
   | cons op rest ih =>
-    intro s s' h hr
+    intro nr s s' h hr
     rw [runS] at hr
     cases hs : stepS s op with
     | error t => rw [hs] at hr; cases hr
     | ok s1 =>
       rw [hs, bindR_ok] at hr
-      exact ih (reach_step h op hs) hr
+      obtain ⟨h1, rops, h2, h3⟩ := ih (reach_step h op hs) hr
+      refine ⟨h1, rops, ?_, h3⟩
+      intro hn
+      exact h2 ⟨⟨hn.1, hn.2 op List.mem_cons_self⟩, fun o ho => hn.2 o (List.mem_cons_of_mem _ ho)⟩
 
 /-! ### runs without acknowledgements -/
 
@@ -195,6 +226,20 @@ theorem noack_step {b0 w W M : Nat} (hw : w < 2^20) {s s' : Sys} (h : SInv b0 w 
     | error t => rw [hg] at hs; cases hs
     | ok g => rw [hg, bindR_ok] at hs; cases hs; exact hn
   | ack k => cases hop
+  | sync =>
+    simp only [stepS] at hs
+    split at hs
+    · cases hs; exact hn
+    · cases hs; exact hn
+  | resync k =>
+    simp only [stepS] at hs
+    split at hs
+    · cases hs; exact hn
+    · split at hs
+      · cases hg : stepT s.rcv (.resync _) with
+        | error t => rw [hg] at hs; cases hs
+        | ok g => rw [hg, bindR_ok] at hs; cases hs; exact hn
+      · cases hs; exact hn
 
 theorem noack_run {b0 w W M : Nat} (hW : WOk W) (hw : w < 2^20) (ops : List SOp) :
     ∀ {s s' : Sys}, SInv b0 w W M s → s.snd.win.length = s.hist.emitted.length →
